@@ -15,7 +15,7 @@
 const char* const H_NAME = "c08_io";
 const char* const H_PROPERTY = "C08";
 
-enum { SC_STREAM = 0, SC_ACCEPT, SC_MODES, SC_CLOSE, SC_INVALID, SC_NKINDS };
+enum { SC_STREAM = 0, SC_ACCEPT, SC_MODES, SC_CLOSE, SC_INVALID, SC_PEER_CLOSE, SC_NKINDS };
 enum { SH_READ = 0, SH_READV, SH_RECV, SH_RECVFROM, SH_RECVMSG, SH_WRITE, SH_WRITEV, SH_SEND, SH_SENDTO, SH_SENDMSG, SH_ACCEPT, SH_CONNECT, SH_CLOSE, SH_FCNTL, SH_IOCTL, SH_N };
 static const char* const shn[SH_N] = {"read", "readv", "recv", "recvfrom", "recvmsg", "write", "writev", "send", "sendto", "sendmsg", "accept", "connect", "close", "fcntl", "ioctl"};
 
@@ -513,6 +513,53 @@ static void run_close(sim_cfg_t c) {
   close(cfd_w);
 }
 
+/* =============== scenario PEER_CLOSE: the reader goes away while writers are blocked on a full buffer =============== */
+static int pc_r, pc_w, pc_nw, pc_read_first;
+static void* pc_writer(void* p) {
+  const int w = (int)(intptr_t)p;
+  unsigned char buf[64];
+  memset(buf, 0x40 + w, sizeof buf);
+  for (int i = 0; i < 200; i++) { /* far more than the buffer holds: ends with an error once the peer is gone */
+    io_res_t r = io_rw(is_socket[pc_w] ? SH_SEND : SH_WRITE, pc_w, buf, sizeof buf, 0, 1);
+    if (r.ret < 0) {
+      if (r.err != EPIPE && r.err != ECONNRESET) sim_violation("C08-write-failed", "writer %d: write after the peer closed failed with errno %d (EPIPE/ECONNRESET expected)", w, r.err);
+      return NULL;
+    }
+  }
+  sim_violation("C08-write-after-peer-close", "writer %d: 200 writes of 64 bytes succeeded although the reader closed after %d bytes and the buffer holds %d", w, pc_read_first, cap);
+  return NULL;
+}
+static void* pc_reader(void* p) {
+  (void)p;
+  unsigned char buf[64];
+  int got = 0;
+  while (got < pc_read_first) {
+    io_res_t r = io_rw(is_socket[pc_r] ? SH_RECV : SH_READ, pc_r, buf, (size_t)(pc_read_first - got > 64 ? 64 : pc_read_first - got), 0, 1);
+    if (r.ret <= 0) break;
+    got += (int)r.ret;
+  }
+  for (int i = 0; i < 3; i++) RS0(fiber_yield); /* let the writers fill the buffer and block */
+  close(pc_r);
+  return NULL;
+}
+static void run_peer_close(sim_cfg_t c) {
+  int sock = wl_pct(50);
+  pc_nw = wl_int(1, 3);
+  pc_read_first = wl_int(0, 3 * cap > 200 ? 200 : 3 * cap);
+  sim_describe("threads=%d peer-close %s writers=%d reader reads %d bytes then closes, capacity=%d preempt=1/%d faults=%#x", c.threads, sock ? "socketpair" : "pipe", pc_nw, pc_read_first, cap, c.preempt_inv, c.faults);
+  int fds[2];
+  if (sock ? socketpair(AF_UNIX, SOCK_STREAM, 0, fds) : pipe(fds)) sim_violation("C08-setup", "setup failed");
+  pc_r = fds[0];
+  pc_w = fds[1];
+  is_socket[pc_r] = is_socket[pc_w] = sock;
+  fiber_t* f[4];
+  int n = 0;
+  for (int w = 0; w < pc_nw; w++) f[n++] = fiber_create(STK, pc_writer, (void*)(intptr_t)w);
+  f[n++] = fiber_create(STK, pc_reader, NULL);
+  for (int i = 0; i < n; i++) fiber_join(f[i], NULL);
+  close(pc_w);
+}
+
 /* =============== scenario INVALID =============== */
 static void run_invalid(sim_cfg_t c) {
   static const char* const cls[] = {"negative", "closed", "never-opened", "eq-max-fd", "above-max-fd", "int-max", "int-min"};
@@ -590,6 +637,7 @@ void h_run(void) {
     case SC_ACCEPT: run_accept(c); break;
     case SC_MODES: run_modes(c); break;
     case SC_CLOSE: run_close(c); break;
+    case SC_PEER_CLOSE: run_peer_close(c); break;
     default: run_invalid(c);
   }
   h_fiber_end();
